@@ -240,11 +240,12 @@ func NewMatchField[Int constraints.Integer | *big.Int | ~[]byte, Mask constraint
 				return nil, fmt.Errorf("invalid mask: out of field range")
 			}
 		}
+		dataBits := uint(value.BitLen())
 		if len(mask) != 3 || mask[2] == 1 {
 			value = value.Lsh(value, uint(mask[0]))
 		}
 		if len(mask) == 1 {
-			maskInt = rangeMask(uint(mask[0]), uint(value.BitLen()))
+			maskInt = rangeMask(uint(mask[0]), dataBits)
 		} else {
 			maskInt = rangeMask(uint(mask[0]), uint(mask[1]))
 		}
